@@ -89,7 +89,7 @@ func (s *server) handleConn(rwc net.Conn) error {
 		if nid != 0 {
 			select {
 			case <-s.stopCh:
-			case s.r.disconnected <- nid:
+			case s.r.disconnected <- disconnect{nid, c}:
 			}
 		}
 	}()
